@@ -55,7 +55,14 @@ def initial_pool(seed):
         trees.append(penman.Tree(node, metadata=meta))
     g3 = layout.interpret(trees[2], MODEL)
     g4 = layout.interpret(trees[3], MODEL)
-    if rng.random() < 0.5:
+    if seed % 4 == 1:
+        # a graph that holds a reified node whose concept is aligned while its second relation carries no role alignment,
+        # and an aligned reifiable edge: what dereify_edges / reify_edges move markers between
+        g4 = penman.decode('(a / alpha :ARG1-of (_ / have-mod-91~2 :ARG2 (b / beta)) :mod~e.3 (c / gamma~4 :polarity -) '
+                           ':ARG0-of (o / own-01~e.7 :ARG1 b))', model=MODEL)
+    elif seed % 4 == 2:
+        g3 = transform.reify_edges(g3, MODEL)          # reified nodes exactly as the library writes them
+    if rng.random() < 0.5 and seed % 4 != 1:
         # a graph built by hand: no markers at all, no explicit top, triples in an arbitrary order (top triple first)
         rest = list(g4.triples[1:])
         rng.shuffle(rest)
